@@ -141,10 +141,29 @@ pub fn gen_case(ch: &mut Choices) -> CfiCase {
         0 => ch.biased(8 * address_size as u32),
         _ => 0x100 & m,
     };
+    // an .eh_frame CIE may carry a 'zR' augmentation: the FDE's addresses and every DW_CFA_set_loc operand are then
+    // written in that pointer encoding (absolute application here; unsigned formats of every width). All such values
+    // are kept within what the format holds.
+    let (aug, fde_enc) = if eh && ch.chance(110) { (b"zR".to_vec(), ch.pick(&[0x03u8, 0x00, 0x02, 0x04, 0x01, 0x03])) } else { (Vec::new(), 0u8) };
+    let fm = match fde_enc & 0x0f {
+        0x02 => 0xffff,
+        0x03 => 0xffff_ffff,
+        _ => u64::MAX,
+    } & m;
+    let (initial, range) = (initial & fm, range & fm);
+    let fix = |ops: Vec<CfiOp>| -> Vec<CfiOp> {
+        ops.into_iter()
+            .map(|o| match o {
+                CfiOp::SetLoc(a) => CfiOp::SetLoc(a & fm),
+                o => o,
+            })
+            .collect()
+    };
+    let (cie_instrs, fde_instrs) = (fix(cie_instrs), fix(fde_instrs));
     let cie = CieSpec {
         version,
         format64: ch.chance(48),
-        aug: Vec::new(),
+        aug,
         address_size,
         segment_size: 0,
         code_align,
@@ -152,7 +171,7 @@ pub fn gen_case(ch: &mut Choices) -> CfiCase {
         ra_reg: ch.below(20) as u64,
         lsda_enc: 0,
         personality: None,
-        fde_enc: 0,
+        fde_enc,
         instrs: cie_instrs,
         pad: ch.below(3),
     };
@@ -270,6 +289,38 @@ pub fn run_gimli<S: UnwindContextStorage<usize>>(case: &CfiCase, built: &BuiltFr
                 if rows.len() > 4096 {
                     fail!("c06/rows/unbounded", "more than 4096 rows");
                 }
+            }
+        }};
+    }
+    if case.eh {
+        let mut s = EhFrame::new(&built.bytes, endian);
+        s.set_address_size(case.cie.address_size);
+        s.set_vendor(vendor);
+        go!(s, gimli::EhFrameOffset)
+    } else {
+        let mut s = DebugFrame::new(&built.bytes, endian);
+        s.set_address_size(section_address_size(case));
+        s.set_vendor(vendor);
+        go!(s, gimli::DebugFrameOffset)
+    }
+}
+
+/// The unwind row for one address through `FrameDescriptionEntry::unwind_info_for_address` on the given context
+/// (rendered; an error by its name).
+pub fn lookup_gimli<S: UnwindContextStorage<usize>>(case: &CfiCase, built: &BuiltFrame, ctx: &mut UnwindContext<usize, S>, address: u64) -> R<String> {
+    let endian = if case.big { RunTimeEndian::Big } else { RunTimeEndian::Little };
+    let bases = BaseAddresses::default();
+    let vendor = if case.aarch64 { gimli::Vendor::AArch64 } else { gimli::Vendor::Default };
+    macro_rules! go {
+        ($section:expr, $offty:expr) => {{
+            let section = $section;
+            let fde = match section.fde_from_offset(&bases, $offty(built.fdes[0].offset), |s, b, o| s.cie_from_offset(b, o)) {
+                Ok(f) => f,
+                Err(e) => return Ok(format!("parse:{}", errname(&e))),
+            };
+            match fde.unwind_info_for_address(&section, &bases, ctx, address) {
+                Ok(row) => Ok(format!("{:?}", mrow_of(row)?)),
+                Err(e) => Ok(errname(&e)),
             }
         }};
     }
